@@ -104,7 +104,7 @@ def gen_coqproject():
     for f in sorted(glob.glob(os.path.join(COQ, "**", "*.v"), recursive=True)):
         rel = os.path.relpath(f, COQ)
         d = os.path.dirname(f)
-        if os.path.exists(os.path.join(d, ".wip")) or rel.startswith("."):
+        if os.path.exists(os.path.join(d, ".wip")) or os.path.exists(os.path.join(d, ".skip")) or rel.startswith("."):
             continue
         files.append(rel)
     txt = "-Q . V\n-arg -w -arg -notation-overridden,-deprecated-hint-without-locality,-deprecated-instance-without-locality\n" + "\n".join(files) + "\n"
